@@ -741,6 +741,7 @@ func TestRun(t *testing.T) {
 	}
 	wg.Wait()
 	serverStop(rec)
+	parentContext(rec)
 	rec.SetExhaustive(true)
 	rec.Assume("liveness is bounded progress: after the action the call must return within 6 s (typical latency: microseconds); a firing watchdog is a violation only if a goroutine is parked in the library's wait points, otherwise inconclusive")
 	rec.Assume("'queued behind the limiter / NSTART' has no observable event; the harness gives the call 2 ms to queue up before acting")
@@ -805,6 +806,84 @@ func serverStop(rec *vr.Rec) {
 			}
 			wg.Wait()
 			rec.Eval(fmt.Sprintf("stop|%s|%d", kind, rep%2))
+		}
+	}
+}
+
+// parentContext: a client dialed under a parent context (options.WithContext). The parent ends while an operation is
+// blocked; the operation must return, and a Close() afterwards (several at once) must still complete the connection's done
+// signal and run every on-close callback exactly once - the connection is not "already closed" just because its context is.
+func parentContext(rec *vr.Rec) {
+	for _, kind := range netenv.Kinds {
+		for rep := 0; rep < vr.Scale(2, 20); rep++ {
+			c := map[string]any{"scenario": "parent-context-ends-then-close", "transport": kind, "closers": 1 + rep%4}
+			ss, err := newSockServer(kind)
+			if err != nil {
+				rec.Inconclusive("server " + kind + ": " + err.Error())
+				continue
+			}
+			parent, cancelParent := context.WithCancel(context.Background())
+			cc, err := ss.srv.Dial(netenv.ClientOpts{Udp: []udp.Option{options.WithContext(parent)}, Tcp: []tcp.Option{options.WithContext(parent)}})
+			if err != nil {
+				rec.Inconclusive("parent-context dial " + kind + ": " + err.Error())
+				cancelParent()
+				ss.srv.Stop()
+				continue
+			}
+			var onClose atomic.Int32
+			cc.AddOnClose(func() { onClose.Add(1) })
+			opDone := make(chan error, 1)
+			go func() {
+				m, err := cc.Get(context.Background(), "/hang/parent")
+				if err == nil {
+					cc.ReleaseMessage(m)
+				}
+				opDone <- err
+			}()
+			if !ss.wait("/hang/parent") {
+				rec.Inconclusive("parent-context: request not seen by the server")
+			}
+			cancelParent()
+			rec.Eval(fmt.Sprintf("parent|%s|%d", kind, rep%4))
+			rec.Count("parent_context_cases_"+kind, 1)
+			select {
+			case <-opDone:
+			case <-time.After(watchdog):
+				rec.Violation("C09/"+kind+"/get/does-not-return-after-parent-context-ended", "the connection's parent context was cancelled; the blocked request had not returned after the watchdog", c)
+			}
+			var cwg sync.WaitGroup
+			for g := 0; g < 1+rep%4; g++ {
+				cwg.Add(1)
+				go func() { defer cwg.Done(); _ = cc.Close() }()
+			}
+			closed := make(chan struct{})
+			go func() { cwg.Wait(); close(closed) }()
+			select {
+			case <-closed:
+			case <-time.After(watchdog):
+				rec.Violation("C09/"+kind+"/close-does-not-return", "Close() after the parent context had ended", c)
+			}
+			select {
+			case <-cc.Done():
+				time.Sleep(200 * time.Microsecond)
+				if n := onClose.Load(); n != 1 {
+					rec.Violation("C09/"+kind+"/on-close-count", fmt.Sprintf("on-close callback ran %d times after parent-context end + Close", n), c)
+				} else {
+					rec.Count("parent_context_connections_closed_cleanly", 1)
+				}
+			case <-time.After(watchdog):
+				rec.Violation("C09/"+kind+"/done-never-closes", fmt.Sprintf("parent context ended, then Close() returned, but Done() did not complete within the watchdog (on-close callbacks run: %d)", onClose.Load()), c)
+			}
+			select {
+			case <-ss.release:
+			default:
+				close(ss.release)
+			}
+			ss.srv.Stop()
+			select {
+			case <-ss.srv.Served:
+			case <-time.After(watchdog):
+			}
 		}
 	}
 }
